@@ -295,7 +295,8 @@ static void oneCase(uint64_t seed, long caseNo) {
         } else vh::P("mask_rows_match", icls + ".mask_rows_match", std::abs(nOn - m), 0);
     }
     // ---- power of workless constraints on the velocity manifold
-    if (icls == "onManifold" && m > 0 && finite) {
+    if (icls == "onManifold" && m > 0 && zeroG) vh::D("power.skipped.zeroG");   // garbage multipliers there: finding zeroG.newton
+    if (icls == "onManifold" && m > 0 && finite && !zeroG) {
         bool allWorkless = true;
         for (size_t k = 0; k < A.cons.size(); ++k) {
             const ConsInfo& ci = A.cons[k];
